@@ -156,6 +156,17 @@ def locInArea (L : Int) (a : Int × Int) (l : Loc) : Bool :=
 def locAvoids (genes : List Gene) (pad : Int) (l : Loc) : Bool :=
   l.parts.all fun p => areaAvoids genes pad (p.lo, p.hi)
 
+/-- bases shared by the stretch `[lo, hi)` and the gene's hull `[g.start, g.end)` -/
+def overlapSize (g : Gene) (lo hi : Int) : Int := max 0 (min hi g.end - max lo g.start)
+
+/-- bases shared by the stretch `[lo, hi)` and one exon of a gene -/
+def exonOverlap (gp : Part) (lo hi : Int) : Int := max 0 (min hi gp.hi - max lo gp.lo)
+
+/-- "lying in the gaps between existing genes (up to the allowed overlap)": no part of `l` shares
+    more than `pad` bases with any exon of any of the genes (given by their locations) -/
+def locOverlapOk (genes : List Loc) (pad : Int) (l : Loc) : Bool :=
+  l.parts.all fun q => genes.all fun gl => gl.parts.all fun gp => decide (exonOverlap gp q.lo q.hi ≤ pad)
+
 /-- a well-formed intergenic area of a record of length `L`: inside the record, or reaching back
     across the origin by at most one turn (`start < 0`), never longer than the record -/
 def AreaOk (L : Int) (a : Int × Int) : Prop :=
